@@ -70,6 +70,8 @@ fn ev<C: CellType>(e: &Expr<C>, a: &[C; NVARS]) -> C {
 
 struct Checker<'a, C: CellType> {
     asg: &'a [[C; NVARS]],
+    /// a strided subset of the boundary grid for the (many) split_along partitions
+    split_asg: &'a [[C; NVARS]],
     errors: Vec<(String, String)>,
     evals: u64,
 }
@@ -148,14 +150,94 @@ fn subst<C: CellType>(ck: &mut Checker<C>, x: &Expr<C>, y: &Expr<C>) -> Option<E
     Some(r)
 }
 
+/// The hash containers `split_along` takes live in a private module of hpbf: they can only be named
+/// through inference (they implement `Default` and deref to the std containers).
+fn make_set<S, H>(items: &[isize]) -> S
+where
+    S: Default + std::ops::DerefMut<Target = std::collections::HashSet<isize, H>>,
+    H: std::hash::BuildHasher,
+{
+    let mut set = S::default();
+    for &i in items {
+        set.insert(i);
+    }
+    set
+}
+
+fn make_map<C: CellType, M, H>(items: &[(isize, Expr<C>)]) -> M
+where
+    M: Default + std::ops::DerefMut<Target = std::collections::HashMap<isize, Expr<C>, H>>,
+    H: std::hash::BuildHasher,
+{
+    let mut map = M::default();
+    for (k, v) in items {
+        map.insert(*k, v.clone());
+    }
+    map
+}
+
+/// split_along(constant, linear): for every partition of the three variables into constant / linear /
+/// neither and every step from a small set (1, 16, 2^(w-1), 2^(w-4), a constant variable, 16 times a constant variable):
+/// const + other + sum of the linear parts' initial values recomposes to the expression; the constant
+/// part only mentions constant variables; each increment equals the part's coefficient expression
+/// (the part at x = 1) times the step of its linear variable.
 fn split<C: CellType>(ck: &mut Checker<C>, e: &Expr<C>) {
-    use std::collections::HashMap as StdMap;
-    let _ = StdMap::<u8, u8>::new();
-    // split_along with variable 1 constant and variable 0 linear (increment 1): the parts add up
-    // to the expression: const + other + sum(linear initial parts)
-    // (the public signature needs the crate's own hasher types, which are private; exercised
-    // through the optimiser in C01 instead)
-    let _ = (ck, e);
+    let full_asg = ck.asg;
+    ck.asg = ck.split_asg;
+    split_inner(ck, e);
+    ck.asg = full_asg;
+}
+
+fn split_inner<C: CellType>(ck: &mut Checker<C>, e: &Expr<C>) {
+    let half = C::ONE.wrapping_shl(C::BITS - 1);
+    let steps: Vec<Expr<C>> = vec![
+        Expr::val(C::ONE),
+        Expr::val(C::from_u64(16)),
+        Expr::val(half),
+        Expr::val(C::ONE.wrapping_shl(C::BITS - 4)),
+    ];
+    // role of each variable: 0 = constant, 1 = linear, 2 = neither
+    for roles in 0..27u32 {
+        let role = |v: usize| (roles / 3u32.pow(v as u32)) % 3;
+        let constant: Vec<isize> = (0..NVARS).filter(|&v| role(v) == 0).map(|v| v as isize).collect();
+        let lin_vars: Vec<isize> = (0..NVARS).filter(|&v| role(v) == 1).map(|v| v as isize).collect();
+        if lin_vars.is_empty() {
+            continue;
+        }
+        let mut step_sets: Vec<Vec<Expr<C>>> = steps.iter().map(|s| vec![s.clone(); lin_vars.len()]).collect();
+        if let Some(&cv) = constant.first() {
+            step_sets.push(vec![Expr::var(cv); lin_vars.len()]);
+            step_sets.push(vec![Expr::var(cv).mul(Expr::val(C::from_u64(16))); lin_vars.len()]);
+        }
+        for st in step_sets {
+            let linear: Vec<(isize, Expr<C>)> = lin_vars.iter().copied().zip(st.into_iter()).collect();
+            let (c, o, lin) = e.split_along(&make_set(&constant), &make_map(&linear));
+            let d = || format!("`{e:?}` split_along(constant {constant:?}, linear {linear:?})");
+            let mut sum = c.add(&o);
+            for (initial, _) in &lin {
+                sum = sum.add(initial);
+            }
+            ck.same("split_along", d, &sum, |a| ev(e, a));
+            if c.variables().any(|v| !constant.contains(&v)) {
+                ck.errors.push(("split_along".into(), format!("{}: constant part `{c:?}` mentions a non-constant variable", d())));
+            }
+            for (initial, increment) in &lin {
+                let Some(x) = initial.variables().find(|v| !constant.contains(v)) else {
+                    ck.errors.push(("split_along".into(), format!("{}: linear part `{initial:?}` has no linear variable", d())));
+                    continue;
+                };
+                let Some((_, step)) = linear.iter().find(|(v, _)| *v == x) else {
+                    ck.errors.push(("split_along".into(), format!("{}: linear part `{initial:?}` is over variable {x}, which is not linear", d())));
+                    continue;
+                };
+                ck.same("split_along", || format!("{} increment of `{initial:?}`", d()), increment, |a| {
+                    let mut b = *a;
+                    b[x as usize] = C::ONE;
+                    ev(initial, &b).wrapping_mul(ev(step, a))
+                });
+            }
+        }
+    }
 }
 
 struct Plan {
@@ -175,6 +257,7 @@ fn plan(tier: Tier) -> Plan {
 fn explore<C: CellType>(ctx: &mut WorkerCtx, p: &Plan, only_pair: Option<u64>) {
     let asg_full = assignments::<C>(p.full_grid);
     let asg_small = assignments::<C>(false);
+    let asg_split: Vec<[C; NVARS]> = asg_small.iter().step_by(29).copied().collect();
     let mut pool: Vec<Expr<C>> = Vec::new();
     let mut seen: HashSet<Expr<C>> = HashSet::new();
     for c in consts::<C>() {
@@ -207,7 +290,7 @@ fn explore<C: CellType>(ctx: &mut WorkerCtx, p: &Plan, only_pair: Option<u64>) {
                     None => pair_idx % nshards == shard,
                 };
                 let (x, y) = (&pool[i], &pool[j]);
-                let mut ck = Checker { asg: if mine { &asg[..] } else { &asg[..0] }, errors: Vec::new(), evals: 0 };
+                let mut ck = Checker { asg: if mine { &asg[..] } else { &asg[..0] }, split_asg: &asg_split[..], errors: Vec::new(), evals: 0 };
                 if mine {
                     mine_count += 1;
                 }
@@ -308,7 +391,6 @@ pub fn info(tier: Tier) -> CheckInfo {
             p.widths
         ),
         assumptions: vec![
-            "split_along takes the crate-private hasher types and cannot be called from outside; it is exercised only through the optimiser (C01)".into(),
             "the second level is complete over the capped pool, not over all first-level results when the cap is hit (exhaustive only up to the cap)".into(),
         ],
         bounds: J::obj().set("depth", p.depth).set("pool_cap", p.pool_cap).set("widths", p.widths.iter().map(|&w| w as u64).collect::<Vec<_>>()),
